@@ -58,17 +58,35 @@ def run(cx):
                 if s["rv"]["k"] == "ref" and s["rv"].get("mut"):
                     ps = show(b.place_expr(s["rv"]["pl"]))
                     if re.fullmatch(r"arg1\.(packet_send_queue|pending_queue)", ps):
-                        # every use of the reference must be as the receiver of a FIFO operation
+                        # every use of the reference (or of a plain copy of it, e.g. a parameter of an inlined helper)
+                        # must be as the receiver of a FIFO operation
                         r = s["pl"]["l"] if not s["pl"]["p"] else None
                         bad_use = r is None
+                        aliases = {r} if r is not None else set()
+                        changed = True
+                        while changed and not bad_use:
+                            changed = False
+                            for bb2 in b.reachable:
+                                for st2 in b.stmts(bb2):
+                                    if st2 is s or st2["k"] != "assign":
+                                        continue
+                                    rv2 = st2["rv"]
+                                    uses = any(('"l": %d,' % a_) in __import__("json").dumps(rv2) for a_ in aliases)
+                                    if not uses:
+                                        continue
+                                    plain = (rv2["k"] == "use" and rv2["op"]["k"] in ("copy", "move") and rv2["op"]["pl"]["l"] in aliases and all(p_ == "*" for p_ in rv2["op"]["pl"]["p"])) or \
+                                            (rv2["k"] == "ref" and rv2["pl"]["l"] in aliases and all(p_ == "*" for p_ in rv2["pl"]["p"]))
+                                    if plain and not st2["pl"]["p"]:
+                                        if st2["pl"]["l"] not in aliases:
+                                            aliases.add(st2["pl"]["l"])
+                                            changed = True
+                                    else:
+                                        bad_use = True
                         for bb2 in b.reachable:
-                            for st2 in b.stmts(bb2):
-                                if st2 is not s and st2["k"] == "assign" and ('"l": %d,' % r) in __import__("json").dumps(st2["rv"]):
-                                    bad_use = True
                             t2 = b.term(bb2)
                             if t2["k"] == "call":
                                 for i, a in enumerate(t2["args"]):
-                                    if a["k"] in ("copy", "move") and a["pl"]["l"] == r:
+                                    if a["k"] in ("copy", "move") and a["pl"]["l"] in aliases:
                                         if i != 0 or R.short(t2.get("fn") or "") not in FIFO_OK:
                                             bad_use = True
                         if bad_use:
